@@ -403,6 +403,16 @@ def main(ck):
         terms.append(coq_case(c, snaps))
         idx.append(i)
     bad = ck.eval_cases("cases", HEADER, terms, "check_case", shard=120)
+    if ck.replay:
+        for c, o in zip(cases, outs):
+            ck.log("replay: shape=%s route=%s mutation=%s side=%s" % (c.get("shape"), c.get("route"), c.get("mutation"), c.get("side")))
+            ck.log("program:\n" + c["src"])
+            ck.log("implementation snapshots (A before, B before, A after, B after): %s" % json.dumps(parse_snaps(o.get("out", ""))))
+            term = ("let st0 := run %s state0 in let st1 := run %s st0 in "
+                    "(observe st0 (%s), observe st0 (%s), observe st1 (%s), observe st1 (%s))") % (
+                coq_list(c["pre"]), coq_list(c["mut"]), c["a"], c["b"], c["a"], c["b"])
+            ck.log("model snapshots (same order): " + ck.eval_print(HEADER, term))
+            ck.log("spec: the %s snapshot must not change%s" % ("A" if c["other_is_a"] else "B", " (explicit reference: exempt)" if c["ref"] else ""))
     dist = {"route": {}, "mutation": {}, "shape": {}, "side": {}}
     for c in cases:
         for k in dist:
